@@ -97,14 +97,22 @@ func c02FixedSchema() *xSchema {
 	pool("o", xNamed("Q"))
 	pool("if0", xNamed("I0"))
 	pool("fg", xNamed("String"), xArg{Name: "in1", Type: xNamed("In1")})
+	// list-typed input positions with non-null wrappers around and inside the list
+	pool("fl", xNamed("String"), xArg{Name: "ids", Type: xNonNull(xList(xNamed("Int")))})
+	pool("fl2", xNamed("String"), xArg{Name: "ids", Type: xNonNull(xList(xNonNull(xNamed("Int"))))})
+	pool("fl3", xNamed("String"), xArg{Name: "m", Type: xList(xNonNull(xList(xNamed("Int"))))})
+	pool("fl4", xNamed("String"), xArg{Name: "ins", Type: xNonNull(xList(xNamed("In2")))})
+	pool("fh", xNamed("String"), xArg{Name: "in2", Type: xNamed("In2")})
 	s.Types = append(s.Types,
 		&xType{Name: "In0", Kind: "input", Inputs: []xArg{{Name: "a", Type: xNamed("Int")}, {Name: "b", Type: xNamed("Int")}}},
-		&xType{Name: "In1", Kind: "input", Inputs: []xArg{{Name: "x", Type: xNamed("String")}, {Name: "in", Type: xNamed("In0")}, {Name: "ins", Type: xList(xNamed("In0"))}}})
+		&xType{Name: "In1", Kind: "input", Inputs: []xArg{{Name: "x", Type: xNamed("String")}, {Name: "in", Type: xNamed("In0")}, {Name: "ins", Type: xList(xNamed("In0"))}}},
+		&xType{Name: "In2", Kind: "input", Inputs: []xArg{{Name: "n", Type: xNamed("Int")}, {Name: "ns", Type: xNonNull(xList(xNamed("Int")))},
+			{Name: "nn", Type: xList(xNonNull(xNamed("Int")))}, {Name: "mm", Type: xList(xNonNull(xList(xNamed("Int"))))}}})
 	s.Types = append(s.Types,
 		&xType{Name: "I0", Kind: "interface", Fields: []string{"a"}},
 		&xType{Name: "O0", Kind: "object", Fields: []string{"a", "b", "i", "o"}, Ifaces: []string{"I0"}},
 		&xType{Name: "O1", Kind: "object", Fields: []string{"a", "b", "ni", "o"}, Ifaces: []string{"I0"}},
-		&xType{Name: "Q", Kind: "object", Fields: []string{"a", "b", "i", "fa", "o", "if0", "fg"}},
+		&xType{Name: "Q", Kind: "object", Fields: []string{"a", "b", "i", "fa", "o", "if0", "fg", "fl", "fl2", "fl3", "fl4", "fh"}},
 		&xType{Name: "M", Kind: "object", Fields: []string{"a"}})
 	return s
 }
@@ -1210,6 +1218,7 @@ func genC02(tier string, seed uint64, n int, e *Emitter) {
 	} {
 		c02Emit(e, fixed, q, "corpus", []string{"corpus"})
 	}
+	c02ListLiterals(e, fixed, tier)
 	sweep := 160
 	if tier == "thorough" {
 		sweep = 1 << 30
@@ -1265,6 +1274,75 @@ func genC02(tier string, seed uint64, n int, e *Emitter) {
 			continue
 		}
 		c02Emit(e, sc, t2, "mutated", []string{"mut-" + m})
+	}
+}
+
+// c02ListLiterals: variables and literals inside list literals in positions of type [T]!, [T!]!,
+// [[T]!] (arguments and input-object fields), directly, inside an input object within the list,
+// in an operation, nested under a field and in a fragment: each shape with a wrong-typed
+// variable, a nullable variable for a non-null item, an ill-typed literal, and the valid twin.
+// TypeInfo has to strip the non-null wrapper of the expected type before descending into a list
+// literal; VariablesInAllowedPosition sees the item type only then.
+func c02ListLiterals(e *Emitter, sc *c02Schema, tier string) {
+	type site struct {
+		name string // the field with the list-typed position; %s = the value placed in the item position
+		call string
+		item string // type of the item position: "Int" or "Int!"
+	}
+	sites := []site{
+		{"arg [Int]!", "fl(ids: [%s])", "Int"},
+		{"arg [Int]! second item", "fl(ids: [1, %s])", "Int"},
+		{"arg [Int!]!", "fl2(ids: [%s])", "Int!"},
+		{"arg [[Int]!]", "fl3(m: [[%s]])", "Int"},
+		{"arg [[Int]!] second list", "fl3(m: [[1], [2, %s]])", "Int"},
+		{"object in [In2]!: field n", "fl4(ins: [{n: %s, ns: []}])", "Int"},
+		{"object in [In2]!: field ns [Int]!", "fl4(ins: [{ns: [%s]}])", "Int"},
+		{"object in [In2]!: field nn [Int!]", "fl4(ins: [{ns: [], nn: [%s]}])", "Int!"},
+		{"object in [In2]!: field mm [[Int]!]", "fl4(ins: [{ns: [], mm: [[%s]]}])", "Int"},
+		{"input field ns [Int]!", "fh(in2: {ns: [%s]})", "Int"},
+		{"input field mm [[Int]!]", "fh(in2: {ns: [1], mm: [[%s]]})", "Int"},
+	}
+	type variant struct {
+		tag, vtype, value string // vtype "" = a literal, no variable
+	}
+	for _, st := range sites {
+		vs := []variant{
+			{"valid-var", st.item, "$v"},
+			{"wrong-typed-var", "String", "$v"},
+			{"wrong-typed-list-var", "[Int]", "$v"},
+			{"ill-typed-literal", "", "\"x\""},
+			{"valid-literal", "", "7"},
+		}
+		if st.item == "Int!" {
+			vs = append(vs, variant{"nullable-var-for-non-null-item", "Int", "$v"})
+		} else {
+			vs = append(vs, variant{"non-null-var", "Int!", "$v"})
+		}
+		for _, v := range vs {
+			call := fmt.Sprintf(st.call, v.value)
+			head := "query A"
+			if v.vtype != "" {
+				head = "query A($v: " + v.vtype + ")"
+			}
+			layouts := []string{"operation", "nested-fragment"}
+			if tier == "thorough" {
+				layouts = []string{"operation", "nested", "fragment", "nested-fragment"}
+			}
+			for _, layout := range layouts {
+				var doc string
+				switch layout {
+				case "operation":
+					doc = head + " { " + call + " }"
+				case "nested":
+					doc = head + " { o { o { " + call + " } } }"
+				case "fragment":
+					doc = head + " { ...F } fragment F on Q { " + call + " }"
+				default:
+					doc = head + " { o { ...F } } fragment F on Q { ...G } fragment G on Q { a " + call + " }"
+				}
+				c02Emit(e, sc, doc, "list-literals", []string{"list-literal", "ll-" + v.tag, "ll-" + layout})
+			}
+		}
 	}
 }
 
